@@ -32,7 +32,11 @@ Oracle:
   * min-install (P2), per judged target: if a provably resolvable installed package X matches the target and no
     dependency in the universe asks for a version of that name+slot that X does not satisfy, X must still be there,
     and - when no dependency names another slot of it - nothing else matching the target may be merged.
-  * if every target has a provably resolvable candidate, resolution must succeed.
+  * a target is also not judged when its closure contains a back-pointing alternative on a name that has two
+    versions in one slot: such an alternative can succeed, in a cycle context, with a lower version than another
+    requester needs, and the resolver does not backtrack over that (no global backtracking is promised).
+  * a failed resolution is a violation only when the target the resolver gave up on is a judged one whose P1/P2
+    precondition holds (the hazard above is evaluated over the closures of that target and all earlier ones).
   * determinism (P3): resolving the same world again with fresh objects, and again with every repository dict built in
     a different insertion order, must give the identical outcome and operation list.
 Class counters: world:inert-blocker, world:cross-slot-build-dep, multi_target, judged-later-target, cycle:installed-only-retry (a cycle made the resolver retry an atom
@@ -74,7 +78,7 @@ RULE = (
     "distinct = JSON of the world"
 )
 ASSUMPTIONS = [
-    "on the mono profiles a package that is least-fixpoint resolvable through forward (rank-increasing) and PDEPEND alternatives alone is resolvable by the greedy resolver whatever it does with back-pointing alternatives (no blockers, no upper bounds, so choices cannot conflict)",
+    "on the mono profiles a package that is least-fixpoint resolvable through forward (rank-increasing / lower own slot) and PDEPEND alternatives alone is resolvable by the greedy resolver, provided no back-pointing alternative in the closures of the targets processed so far names a package with two versions in one slot (otherwise a back alternative can succeed with a lower version than another requester needs; the resolver does not backtrack over that)",
     "FakePkg/SimpleTree behave like real repositories as far as the resolver is concerned",
 ]
 BUDGET = {"quick": 50, "thorough": 900}
@@ -135,6 +139,36 @@ def resolvable_set(world, pk, forward_only=True):
 
 def reach_keys(pk, start):
     """names of every package reachable from the packages `start` through any alternative of any class"""
+    return {pk[i].key for i in reach_ids(pk, start)}
+
+
+def back_alternative_hazard(pk, start):
+    """Is there, among the packages reachable from `start`, a DEPEND/BDEPEND/RDEPEND/IDEPEND alternative that points
+    back (not `_forward`) to a name with two different versions in one slot?  Such an alternative can *succeed* in a
+    cycle context with a lower version than the one another requester needs (the version in flight, or a later `>=`
+    request); the resolver does not backtrack over that, so resolvability of the highest version is then not provable
+    by the fixpoint model.  With one version per slot every request for that name+slot gets the same package."""
+    multi = set()
+    seen = {}
+    for q in pk.values():
+        v = seen.setdefault((q.key, q.slot), (q.ver, q.rev or "0"))
+        if v != (q.ver, q.rev or "0"):
+            multi.add(q.key)
+    if not multi:
+        return False
+    for i in reach_ids(pk, start):
+        p = pk[i]
+        for cls in RW.CLASSES:
+            if cls == "PDEPEND":
+                continue
+            for cl in p.clauses(cls):
+                for a in map(RW.ratom, cl):
+                    if not a.blocks and a.key in multi and not _forward(a, p):
+                        return True
+    return False
+
+
+def reach_ids(pk, start):
     seen, todo = set(), list(start)
     while todo:
         p = todo.pop()
@@ -146,7 +180,7 @@ def reach_keys(pk, start):
                 for a in map(RW.ratom, cl):
                     if not a.blocks:
                         todo.extend(q for q in pk.values() if q.id not in seen and a.match(q))
-    return {pk[i].key for i in seen}
+    return seen
 
 
 def _vkey(p):
@@ -245,11 +279,16 @@ def eval_policy(ctx, world, record=True):
     # target can legitimately be 'already satisfied' by a lower version when its turn comes)
     plan_ = []
     reached = set()
+    so_far = []  # candidates of this and all earlier targets: what may already be in the plan state
     for idx, t in enumerate(targets):
         cands = [p for p in pk.values() if t.match(p)]
+        so_far.extend(cands)
         if t.key in reached:
             plan_.append((t, None, {"cands": cands}))
             classes.append("target:not-judged(name reachable from an earlier target)")
+        elif back_alternative_hazard(pk, so_far):
+            plan_.append((t, None, {"cands": cands}))
+            classes.append("target:not-judged(back alternative on a multi-version name in its closure)")
         else:
             expect, info, cl = _expectation(world, pk, t, kind, safe)
             classes.extend(cl)
@@ -257,8 +296,13 @@ def eval_policy(ctx, world, record=True):
             if expect and idx:
                 classes.append("judged-later-target")
         reached |= reach_keys(pk, cands) | {t.key}
-    # failure is judged when every target has a provably resolvable candidate
-    must_succeed = all(any(p.id in safe for p in info["cands"]) for _, _, info in plan_)
+    # the statement implies success only where it promises a result: the target the resolver gave up on is a judged
+    # one whose P1/P2 precondition holds (targets are processed in order; the earlier ones succeeded)
+    def must_succeed(failed):
+        for t, expect, _ in plan_:
+            if failed and failed[0] == t.text:
+                return expect is not None
+        return False
 
     out = None
     try:
@@ -278,11 +322,11 @@ def eval_policy(ctx, world, record=True):
             if out["ok"]:
                 classes.append("depend_cycle_survivable")
         if not out["ok"]:
-            if must_succeed:
+            if must_succeed(out["failed"]):
                 classes.append("checked:must-succeed")
                 ctx.violation(
                     f"{kind}:resolution-failed", world,
-                    f"targets {world['targets']}: every target has a resolvable candidate in the reference model, resolver failed on {out['failed']}",
+                    f"targets {world['targets']}: the P1/P2 precondition holds for target {out['failed'][0]} in the reference model, resolver failed on {out['failed']}",
                 )
         else:
             S, merged = RW.final_state(pk, out["ops"])
@@ -362,7 +406,7 @@ def eval_determinism(ctx, world, record=True):
 
 def plan(tier, seed):
     if tier == "quick":
-        return [{"task": "policy", "examples": 500} for _ in range(11)] + [{"task": "determinism", "examples": 60} for _ in range(5)]
+        return [{"task": "policy", "examples": 1500} for _ in range(11)] + [{"task": "determinism", "examples": 60} for _ in range(5)]
     return [{"task": "policy", "examples": 8000} for _ in range(20)] + [{"task": "determinism", "examples": 2500} for _ in range(12)]
 
 
